@@ -25,7 +25,10 @@ RULE = (
     "final outcome equal to the literal nested async-with/with statement. history runs: seeded sequences over "
     "{register, aclose, pop_all, leave block, aclose again, close the popped stack}; oracle: every registered "
     "exit ran exactly once iff its stack was unwound, never twice, never on the original stack after pop_all, "
-    "LIFO within each unwind. Non-trivial: >=2 entries and (a block exception or an exit that raises/suppresses "
+    "LIFO within each unwind; every single unwind (aclose midway, leaving the block, aclose again, closing the popped "
+    "stack) hands each exit the exception in flight and ends as the unwinding rule says (rule cross-checked against the "
+    "nested statements in every program run). Both populations also run inside the handler of an unrelated exception "
+    "and with exception objects that test false. Non-trivial: >=2 entries and (a block exception or an exit that raises/suppresses "
     "or a history op); distinct = distinct (entries, outcome, history) by 64-bit hash."
 )
 COMPONENTS = COMPONENTS_BASE
@@ -34,7 +37,8 @@ ASSUMPTIONS = [
     "exceptions are compared by the tag of the object raised (block / exit name / enter name), not by message or __context__",
 ]
 PROBES = ("suppress_then_raise", "replacement_chain", "enter_failed", "callback_cannot_suppress", "aclose_midway",
-          "pop_all", "unwind_again", "block_raises", "sync_cm", "pushed_callable")
+          "pop_all", "unwind_again", "block_raises", "sync_cm", "pushed_callable", "ambient_exception", "falsy_exception",
+          "stack_reused_after_unwind")
 
 KINDS = ("async_cm", "sync_cm", "push_async_cm", "push_sync_cm", "push_async_fn", "push_sync_fn",
          "callback_sync", "callback_async")
@@ -45,6 +49,43 @@ class Tagged(Exception):
     def __init__(self, tag):
         Exception.__init__(self, repr(tag))
         self.tag = tag
+
+
+class FalsyTagged(Tagged):
+    """An exception object that tests false (it has a length): an exception all the same"""
+
+    def __len__(self):
+        return 0
+
+
+def model_unwind(entries, exc):
+    """
+    The unwinding rule of the statement, on tags: reverse order; exits see the exception in flight, callbacks
+    nothing; a truthy exit suppresses, a raising one replaces.  Cross-checked against the literal nested
+    statements in every program run.
+    """
+    log = []
+    for e in reversed(entries):
+        is_cb = e.kind.startswith("callback")
+        recv = None if is_cb else exc
+        log.append(("exit", e.name, recv))
+        b = e.behave
+        if b == "truthy":
+            if not is_cb and exc is not None:
+                exc = None
+        elif b == "raise_new" or (b == "raise_handling" and recv is not None):
+            exc = ("exit", e.name)
+    return log, exc
+
+
+async def in_ambient(ambient, fn):
+    """Run ``fn`` while an unrelated exception is being handled by the caller (or plainly)"""
+    if not ambient:
+        return await fn()
+    try:
+        raise Tagged("ambient")
+    except Tagged:
+        return await fn()
 
 
 def tag(exc):
@@ -76,11 +117,12 @@ def gen_entries(ch, n):
 class Env:
     """One execution's managers: log, counters"""
 
-    def __init__(self, sim, who):
+    def __init__(self, sim, who, exc_type=Tagged):
         self.sim = sim
         self.who = who
         self.log = []
         self.count = {}
+        self.exc_type = exc_type
 
     async def pause(self, n):
         for _ in range(n):
@@ -95,7 +137,7 @@ class Env:
         if b == "truthy":
             return True
         if b == "raise_new" or (b == "raise_handling" and exc is not None):
-            raise Tagged(("exit", e.name))
+            raise self.exc_type(("exit", e.name))
         return False
 
     def make(self, e):
@@ -106,7 +148,7 @@ class Env:
                 env.log.append(("enter", e.name))
                 await env.pause(e.susp)
                 if e.enter_fails:
-                    raise Tagged(("enter", e.name))
+                    raise env.exc_type(("enter", e.name))
                 return e.name
 
             async def __aexit__(self, et, ev, tb):
@@ -117,7 +159,7 @@ class Env:
             def __enter__(self):
                 env.log.append(("enter", e.name))
                 if e.enter_fails:
-                    raise Tagged(("enter", e.name))
+                    raise env.exc_type(("enter", e.name))
                 return e.name
 
             def __exit__(self, et, ev, tb):
@@ -212,16 +254,20 @@ def outcome_of(fn_result):
     return fn_result
 
 
-async def run_program_stack(entries, env, block_raises, res):
+async def run_program_stack(entries, env, block_raises, res, ambient=False):
     L = lib()
     objs = [env.make(e) for e in entries]
-    try:
+
+    async def go():
         async with L.ExitStack() as stack:
             for e, obj in zip(entries, objs):
                 await register(stack, e, obj)
             env.log.append(("body",))
             if block_raises:
-                raise Tagged("block")
+                raise env.exc_type("block")
+
+    try:
+        await in_ambient(ambient, go)
         res.append(("suppressed",) if block_raises else ("normal",))
     except Tagged as err:
         res.append(("raised", err.tag))
@@ -229,16 +275,16 @@ async def run_program_stack(entries, env, block_raises, res):
         res.append(("raised", type(err).__name__))
 
 
-async def run_program_nested(entries, env, block_raises, res):
+async def run_program_nested(entries, env, block_raises, res, ambient=False):
     objs = [env.make(e) for e in entries]
 
     async def body():
         env.log.append(("body",))
         if block_raises:
-            raise Tagged("block")
+            raise env.exc_type("block")
 
     try:
-        await nested(entries, objs, 0, body)
+        await in_ambient(ambient, lambda: nested(entries, objs, 0, body))
         # reaching here: completed normally or an exception was suppressed on the way
         res.append(("completed",))
     except Tagged as err:
@@ -254,6 +300,8 @@ def gen(ch):
     n = ch.draw(5)
     sc.entries = gen_entries(ch, n)
     sc.block_raises = ch.chance(1, 2)
+    sc.ambient = ch.chance(1, 3)   # everything happens while the caller handles an unrelated exception
+    sc.falsy_exc = ch.chance(1, 4)  # all exceptions involved test false
     if sc.mode == "history":
         for e in sc.entries:
             e.enter_fails = False
@@ -272,17 +320,32 @@ def gen(ch):
 async def run_history(sc, env, res):
     L = lib()
     objs = [env.make(e) for e in sc.entries]
+    by_name = {e.name: e for e in sc.entries}
     popped = []
     groups = [[]]  # registration groups per (current) stack; unwound together
     marks = []
-    try:
+    unwinds = []  # (how, names, exception going in, exits observed, exception coming out)
+
+    async def aclose_of(stk, names, how):
+        start = len(env.log)
+        out_tag = None
+        try:
+            await in_ambient(sc.ambient, stk.aclose)
+        except Tagged as err:
+            out_tag = err.tag
+        unwinds.append((how, list(names), None, [x for x in env.log[start:] if x[0] == "exit"], out_tag))
+
+    holder = []
+
+    async def block():
         async with L.ExitStack() as stack:
+            holder.append(stack)
             for i in range(len(sc.entries) + 1):
                 for pos, op in sc.steps:
                     if pos == i:
                         if op == "aclose":
                             env.log.append(("mark", "aclose"))
-                            await stack.aclose()
+                            await aclose_of(stack, groups[-1], "aclose")
                             marks.append(("unwound", list(groups[-1])))
                             groups.append([])
                         else:
@@ -294,29 +357,33 @@ async def run_history(sc, env, res):
                     groups[-1].append(sc.entries[i].name)
             env.log.append(("mark", "leave"))
             if sc.block_raises:
-                raise Tagged("block")
-        marks.append(("unwound", list(groups[-1])))
+                raise env.exc_type("block")
+
+    out_tag = None
+    try:
+        await in_ambient(sc.ambient, block)
     except Tagged as err:
-        marks.append(("unwound", list(groups[-1])))
+        out_tag = err.tag
         res.append(("raised", err.tag))
+    marks.append(("unwound", list(groups[-1])))
+    leave = max(i for i, x in enumerate(env.log) if x == ("mark", "leave"))
+    unwinds.append(("leave", list(groups[-1]), "block" if sc.block_raises else None,
+                    [x for x in env.log[leave:] if x[0] == "exit"], out_tag))
+    stack = holder[0]
     if sc.again:
         env.log.append(("mark", "again"))
-        try:
-            await stack.aclose()
-        except Tagged:
-            pass
+        await aclose_of(stack, [], "again")
     if sc.close_popped:
         for new, names in popped:
             env.log.append(("mark", "close_popped"))
-            try:
-                await new.aclose()
-            except Tagged:
-                pass
+            await aclose_of(new, names, "close_popped")
             marks.append(("unwound", names))
     else:
         for new, names in popped:
             marks.append(("never", names))
     res.append(("marks", marks))
+    res.append(("unwinds", [(how, names, tin, exits, tout, model_unwind([by_name[n] for n in names], tin))
+                            for how, names, tin, exits, tout in unwinds]))
 
 
 def execute(st, ctx):
@@ -325,13 +392,15 @@ def execute(st, ctx):
     sc = gen(ch)
     sim = new_sim(st, interrupts=False)
     set_interrupts(sim, (0, 0, 5, 2)[sc.interrupt])
-    env_a = Env(sim, "stack")
+    exc_type = FalsyTagged if sc.falsy_exc else Tagged
+    env_a = Env(sim, "stack", exc_type)
     res_a, res_r = [], []
     behaves = [e.behave for e in sc.entries]
     kinds = [e.kind for e in sc.entries]
 
     def describe():
         d = {"mode": sc.mode, "entries": [e.describe() for e in sc.entries], "block_raises": sc.block_raises,
+             "inside_handler_of_unrelated_exception": sc.ambient, "exceptions_test_false": sc.falsy_exc,
              "exitstack": {"log": [repr(x) for x in env_a.log], "result": repr(res_a)}}
         if sc.mode == "program":
             d["nested_with"] = {"log": [repr(x) for x in env_r.log], "result": repr(res_r)}
@@ -340,9 +409,9 @@ def execute(st, ctx):
         return d
 
     if sc.mode == "program":
-        env_r = Env(sim, "nested")
-        sim.spawn(run_program_stack(sc.entries, env_a, sc.block_raises, res_a))
-        sim.spawn(run_program_nested(sc.entries, env_r, sc.block_raises, res_r))
+        env_r = Env(sim, "nested", exc_type)
+        sim.spawn(run_program_stack(sc.entries, env_a, sc.block_raises, res_a, sc.ambient))
+        sim.spawn(run_program_nested(sc.entries, env_r, sc.block_raises, res_r, sc.ambient))
         run_sim(sim)
         sig = ("program",)
         if sim.deadlock:
@@ -352,6 +421,14 @@ def execute(st, ctx):
                 out.violate("C14.did_not_finish", sig, describe())
             else:
                 a, r = res_a[0], res_r[0]
+                # the unwinding model used for histories must agree with the literal statements (else: harness bug)
+                failing = next((i for i, e in enumerate(sc.entries) if e.enter_fails), None)
+                if failing is None:
+                    mlog, mexc = model_unwind(sc.entries, "block" if sc.block_raises else None)
+                else:
+                    mlog, mexc = model_unwind(sc.entries[:failing], ("enter", sc.entries[failing].name))
+                if mlog != [x for x in env_r.log if x[0] == "exit"] or (("raised", mexc) if mexc is not None else ("completed",)) != r:
+                    raise RuntimeError("unwind model disagrees with the nested statements: %r / %r vs %r" % (mlog, mexc, describe()))
                 # the nested statement cannot tell 'normal' from 'suppressed' from outside either
                 a_n = ("completed",) if a[0] in ("normal", "suppressed") else a
                 ea = [x for x in env_a.log if x[0] in ("exit", "args")]
@@ -402,6 +479,17 @@ def execute(st, ctx):
                     if c < want:
                         out.violate("C14.exit_never_ran", sig, dict(describe(), entry=e.name))
                         break
+                for how, names, tin, exits, tout, (mlog, mout) in [u for r_ in res_a if r_[0] == "unwinds" for u in r_[1]]:
+                    if exits != mlog:
+                        kind = "exception_routing" if [x[:2] for x in exits] == [x[:2] for x in mlog] else "which_exits_ran"
+                        out.violate("C14.unwind_differs_from_rule", sig + (how, kind),
+                                    dict(describe(), unwind=how, entries=names, observed=repr(exits), expected=repr(mlog)))
+                        break
+                    if tout != mout:
+                        out.violate("C14.unwind_outcome_differs", sig + (how, "raised" if tout is not None else "completed"),
+                                    dict(describe(), unwind=how, entries=names, exception_in=repr(tin),
+                                         observed=repr(tout), expected=repr(mout)))
+                        break
                 # LIFO within each unwind: exits between two marks are in reverse registration order
                 order = {e.name: i for i, e in enumerate(sc.entries)}
                 seg = []
@@ -439,8 +527,14 @@ def execute(st, ctx):
         out.probes["sync_cm"] = 1
     if any(k in ("push_async_fn", "push_sync_fn") for k in kinds):
         out.probes["pushed_callable"] = 1
+    if sc.ambient:
+        out.probes["ambient_exception"] = 1
+    if sc.falsy_exc and (sc.block_raises or out.faults.get("exit_raises")):
+        out.probes["falsy_exception"] = 1
+    if sc.mode == "history" and any(op == "aclose" and pos < len(sc.entries) for pos, op in sc.steps):
+        out.probes["stack_reused_after_unwind"] = 1
     out.nontrivial = len(sc.entries) >= 2 and (sc.block_raises or any(b != "falsy" for b in behaves) or sc.mode == "history")
-    out.shape = (sc.mode, tuple((e.kind, e.behave, e.enter_fails) for e in sc.entries), sc.block_raises,
+    out.shape = (sc.mode, sc.ambient, sc.falsy_exc, tuple((e.kind, e.behave, e.enter_fails) for e in sc.entries), sc.block_raises,
                  tuple(sc.steps) if sc.mode == "history" else None,
                  (sc.again, sc.close_popped) if sc.mode == "history" else None)
     if ctx.want_sample:
